@@ -3,7 +3,9 @@ package vc
 import (
 	"fmt"
 	"os"
+	"os/exec"
 	"path/filepath"
+	"regexp"
 	"strings"
 	"sync"
 
@@ -208,4 +210,95 @@ func (cr *CheckRun) CheckRoutingFamily(entries []CorpusEntry) {
 		return
 	}
 	cr.RunEntries(bin, entries, false, routingSel, nil)
+}
+
+// CheckCorpusCompiles: bounded stand-in for the type-check half of C01 (never
+// counted as proved): every corpus entry that generates with exit 0 must load.
+func (cr *CheckRun) CheckCorpusCompiles(corpusDir string) {
+	bin, err := BuildGoag(cr.Repo, cr.Scratch)
+	if err != nil {
+		cr.EngineErrors = append(cr.EngineErrors, err.Error())
+		return
+	}
+	var entries []CorpusEntry
+	entries = append(entries, RouteCorpus(corpusDir, cr.Tier, cr.Seed)...)
+	entries = append(entries, SecurityCorpus(corpusDir, cr.Tier)...)
+	entries = append(entries, CorsCorpus(corpusDir, cr.Tier)...)
+	entries = append(entries, BaseFormCorpus(corpusDir)...)
+	entries = append(entries, FixtureCorpus(cr.Repo)...)
+	type res struct {
+		name string
+		gen  error
+		load error
+	}
+	out := make([]res, len(entries))
+	sem := make(chan struct{}, 8)
+	var wg sync.WaitGroup
+	for i, ce := range entries {
+		i, ce := i, ce
+		wg.Add(1)
+		sem <- struct{}{}
+		go func() {
+			defer wg.Done()
+			defer func() { <-sem }()
+			em := Generate(bin, ce, filepath.Join(cr.Scratch, "c01pkgs"))
+			out[i].name, out[i].gen = ce.Name, em.GenErr
+			if em.GenErr == nil {
+				cmd := exec.Command("go", "vet", "-vettool=/bin/true", ".")
+				_ = cmd
+				b := exec.Command("go", "build", "./...")
+				b.Dir = em.Dir
+				b.Env = append(os.Environ(), goEnv...)
+				if o, err := b.CombinedOutput(); err != nil {
+					out[i].load = fmt.Errorf("%s", truncate(string(o), 400))
+				}
+			}
+			os.RemoveAll(em.Dir)
+		}()
+	}
+	wg.Wait()
+	ok, generr, bad := 0, 0, 0
+	var bads []map[string]any
+	for _, r := range out {
+		switch {
+		case r.gen != nil:
+			generr++
+		case r.load != nil:
+			bad++
+			if needsUserCode(r.load.Error()) {
+				bad--
+				generr++
+				continue
+			}
+			bads = append(bads, map[string]any{"entry": r.name, "error": r.load.Error()})
+			o := &Obligation{Name: "emitted[" + r.name + "]/typecheck", Func: "emitted[" + r.name + "]", Class: "bounded", Props: []string{"C01"}, Status: "failed", Formula: "go build of the generated package", Model: r.load.Error()}
+			f := &Failure{Prop: "C01", Obl: o, Entry: r.name, Replay: &ReplayResult{Reproduced: true, Input: "corpus entry " + r.name, Expected: "package type-checks", Observed: truncate(r.load.Error(), 300), Cmd: "goag; go build ./..."}}
+			cr.triageBounded(f)
+		default:
+			ok++
+		}
+	}
+	cr.Bounded = append(cr.Bounded, map[string]any{"what": "type-check of generated corpus packages (bounded, not proved)", "entries": len(entries), "compiled": ok, "generation_errors_or_user_code": generr, "failed": bads})
+}
+
+
+func needsUserCode(msg string) bool {
+	return strings.Contains(msg, "is not in std") || strings.Contains(msg, "cannot find module") || strings.Contains(msg, "no required module provides")
+}
+
+// triageBounded: bounded-part failures are matched against known findings by name only.
+func (cr *CheckRun) triageBounded(f *Failure) {
+	for _, kf := range cr.Known {
+		if kf.Prop != cr.Prop {
+			continue
+		}
+		if re, err := regexp.Compile(kf.Pattern); err == nil && re.MatchString(f.Obl.Name) {
+			f.Known, f.Verdict = kf, "known"
+			cr.KnownHits[kf.Line] = append(cr.KnownHits[kf.Line], f.Obl.Name)
+			cr.Failures = append(cr.Failures, f)
+			return
+		}
+	}
+	f.Verdict = "violation"
+	cr.Failures = append(cr.Failures, f)
 }
